@@ -572,4 +572,173 @@ theorem hgcd2_post (ah al bh bl : Nat) (m : M1) (hah : ah < B) (hal : al < B) (h
     · exact hgcd2Loop_post hA hB _ _ _ _ _ ⟨hd, by omega⟩
     · exact hgcd2Loop_post hA hB _ _ _ _ _ ⟨hd, by omega⟩
 
+/-! ### from the 128-bit values to the full numbers -/
+
+/-- Lehmer/Jebelean: a matrix with `Post` for (A0, B0) works for EVERY pair (X, Y) extending
+    (A0, B0) by lower digits: M⁻¹(X; Y) is non-negative and at least W·2^63 in both components. -/
+theorem post_extend {A0 B0 : Nat} {m : M1} (hA : A0 < B * B) (hB : B0 < B * B) (h : Post A0 B0 m)
+    (W rx ry : Nat) (hrx : rx < W) (hry : ry < W) :
+    ∃ x y, MRel m x y (W * A0 + rx) (W * B0 + ry) ∧ W * 2 ^ 63 ≤ x ∧ W * 2 ^ 63 ≤ y := by
+  obtain ⟨x, y, hr, hx, hy, _⟩ := h
+  have hA' : A0 < 12297829382473034411 * (3 * 2 ^ 63) := by rw [B_eq] at hA; omega
+  have hB' : B0 < 12297829382473034411 * (3 * 2 ^ 63) := by rw [B_eq] at hB; omega
+  obtain ⟨e1, e2⟩ := mrel_entries_lt hr hx hy hA' hB'
+  obtain ⟨x', y', hr', hx', hy', _, _⟩ := trunc_lift W rx ry hr (le_of_lt hrx) (le_of_lt hry) (by omega) (by omega)
+  refine ⟨x', y', hr', le_trans (Nat.mul_le_mul_left _ (by omega)) hx', le_trans (Nat.mul_le_mul_left _ (by omega)) hy'⟩
+
+/-- the conclusion of `Hgcd2Contract` from the extension property, for a, b scaled by 2^s -/
+theorem contract_of_mrel {m : M1} {a b s W x y : Nat} (hs : s ≤ 63) (h : MRel m x y (a * 2 ^ s) (b * 2 ^ s))
+    (hx : W * 2 ^ 63 ≤ x) (hy : W * 2 ^ 63 ≤ y) (hW : 0 < W) :
+    lehmerOk m a b ∧ 0 < m.u11 * a - m.u01 * b ∧ 0 < m.u00 * b - m.u10 * a ∧
+    W ≤ m.u11 * a - m.u01 * b ∧ W ≤ m.u00 * b - m.u10 * a := by
+  obtain ⟨i1, i2⟩ := mrel_inverse h
+  have hp : 0 < 2 ^ s := by positivity
+  have hle : 2 ^ s ≤ 2 ^ 63 := Nat.pow_le_pow_right (by norm_num) hs
+  have k1 : (m.u11 * a - m.u01 * b) * 2 ^ s = x := by
+    rw [Nat.sub_mul, Nat.mul_assoc, Nat.mul_assoc, i1]; omega
+  have k2 : (m.u00 * b - m.u10 * a) * 2 ^ s = y := by
+    rw [Nat.sub_mul, Nat.mul_assoc, Nat.mul_assoc, i2]; omega
+  have w1 : W ≤ m.u11 * a - m.u01 * b := by
+    apply Nat.le_of_mul_le_mul_right _ hp
+    rw [k1]; exact le_trans (Nat.mul_le_mul_left _ hle) hx
+  have w2 : W ≤ m.u00 * b - m.u10 * a := by
+    apply Nat.le_of_mul_le_mul_right _ hp
+    rw [k2]; exact le_trans (Nat.mul_le_mul_left _ hle) hy
+  refine ⟨⟨h.1, ?_, ?_⟩, by omega, by omega, w1, w2⟩ <;> omega
+
+/-! ### the normalised top two limbs (gcd.c:204, gcdext_lehmer.c:175) -/
+
+theorem limbAt_eq (x i : Nat) : limbAt x i = x / B ^ i % B := by
+  unfold limbAt
+  have hB : B = 2 ^ 64 := rfl
+  rw [Nat.shiftRight_eq_div_pow, Nat.pow_mul, ← hB]
+
+/-- MPN_EXTRACT_NUMB as arithmetic: with c = 2^s, d = 2^(64-s) (c·d = B) -/
+theorem extractNumb_eq (s h l : Nat) (hs1 : 1 ≤ s) (hs : s ≤ 63) (hl : l < B) :
+    extractNumb s h l = (h % 2 ^ (64 - s)) * 2 ^ s + l / 2 ^ (64 - s) := by
+  have hB : B = 2 ^ (64 - s) * 2 ^ s := by
+    rw [← Nat.pow_add]; have : 64 - s + s = 64 := by omega
+    rw [this]; rfl
+  unfold extractNumb
+  rw [Nat.shiftLeft_eq, Nat.shiftRight_eq_div_pow]
+  have e1 : h * 2 ^ s % B = (h % 2 ^ (64 - s)) * 2 ^ s := by
+    rw [hB]; exact Nat.mul_mod_mul_right _ _ _
+  have e2 : l / 2 ^ (64 - s) < 2 ^ s := Nat.div_lt_of_lt_mul (by rw [← hB]; exact hl)
+  rw [e1, ← Nat.shiftLeft_eq, Nat.shiftLeft_add_eq_or_of_lt e2]
+
+theorem shl_mod_eq (s l : Nat) (hs : s ≤ 63) : (l <<< s) % B = (l % 2 ^ (64 - s)) * 2 ^ s := by
+  have hB : B = 2 ^ (64 - s) * 2 ^ s := by
+    rw [← Nat.pow_add]; have : 64 - s + s = 64 := by omega
+    rw [this]; rfl
+  rw [Nat.shiftLeft_eq, hB]; exact Nat.mul_mod_mul_right _ _ _
+
+/-- arithmetic core: shifting three digits (l2, l1, l0 base B = c·d, l2 < d) left by c and dropping
+    the lowest digit. -/
+theorem shift3 (c d l2 l1 l0 P r : Nat) (h2 : l2 < d) (hd : 0 < d) (hc : 0 < c) (hr : r < P) :
+    ∃ rx, rx < (c * d) * P ∧
+      (((l2 * (c * d) + l1) * (c * d) + l0) * P + r) * c
+        = ((c * d) * P) * (((l2 % d) * c + l1 / d) * (c * d) + ((l1 % d) * c + l0 / d)) + rx := by
+  refine ⟨(l0 % d) * c * P + r * c, ?_, ?_⟩
+  · have h0 : l0 % d + 1 ≤ d := Nat.mod_lt _ hd
+    have h1 : (l0 % d + 1) * c * P ≤ d * c * P := Nat.mul_le_mul_right _ (Nat.mul_le_mul_right _ h0)
+    have h3 : (r + 1) * c ≤ P * c := Nat.mul_le_mul_right _ hr
+    have e1 : (l0 % d + 1) * c * P = (l0 % d) * c * P + P * c := by ring
+    have e2 : (r + 1) * c = r * c + c := by ring
+    have e3 : d * c * P = c * d * P := by ring
+    omega
+  · have e2 := Nat.mod_eq_of_lt h2
+    have e1 := Nat.div_add_mod l1 d
+    have e0 := Nat.div_add_mod l0 d
+    rw [e2]
+    generalize l1 / d = k1 at *
+    generalize l1 % d = m1 at *
+    generalize l0 / d = k0 at *
+    generalize l0 % d = m0 at *
+    subst e1 e0
+    ring
+
+theorem B_split (s : Nat) (hs : s ≤ 63) : B = 2 ^ s * 2 ^ (64 - s) := by
+  rw [← Nat.pow_add]; have : s + (64 - s) = 64 := by omega
+  rw [this]; rfl
+
+theorem extractNumb_lt (s h l : Nat) (hs1 : 1 ≤ s) (hs : s ≤ 63) (hl : l < B) : extractNumb s h l < B := by
+  rw [extractNumb_eq s h l hs1 hs hl]
+  have hB := B_split s hs
+  have hd : 0 < 2 ^ (64 - s) := by positivity
+  have e2 : l / 2 ^ (64 - s) < 2 ^ s := Nat.div_lt_of_lt_mul (by rw [Nat.mul_comm, ← hB]; exact hl)
+  have h0 : h % 2 ^ (64 - s) + 1 ≤ 2 ^ (64 - s) := Nat.mod_lt _ hd
+  have h1 : (h % 2 ^ (64 - s) + 1) * 2 ^ s ≤ 2 ^ (64 - s) * 2 ^ s := Nat.mul_le_mul_right _ h0
+  rw [Nat.add_mul, Nat.one_mul, Nat.mul_comm (2 ^ (64 - s)), ← hB] at h1
+  omega
+
+/-- top limbs without shift -/
+theorem top_noshift (x k : Nat) (hx : x < B ^ (k + 2)) :
+    limbAt x (k + 1) < B ∧ limbAt x k < B ∧
+    x * 2 ^ 0 = B ^ k * (limbAt x (k + 1) * B + limbAt x k) + x % B ^ k := by
+  rw [limbAt_eq, limbAt_eq]
+  refine ⟨Nat.mod_lt _ B_pos, Nat.mod_lt _ B_pos, ?_⟩
+  have ht : x / B ^ k < B * B := by
+    apply Nat.div_lt_of_lt_mul
+    have : B ^ (k + 2) = B ^ k * (B * B) := by ring
+    rw [← this]; exact hx
+  rw [pow_succ, ← Nat.div_div_eq_div_mul, Nat.mod_eq_of_lt (Nat.div_lt_of_lt_mul ht)]
+  rw [Nat.div_add_mod' (x / B ^ k) B, Nat.div_add_mod]
+  simp
+
+/-- two limbs, shifted (n = 2) -/
+theorem top_shift2 (x s : Nat) (hs1 : 1 ≤ s) (hs : s ≤ 63) (hx : x < B ^ 2) (ht : limbAt x 1 < 2 ^ (64 - s)) :
+    extractNumb s (limbAt x 1) (limbAt x 0) < B ∧ (limbAt x 0 <<< s) % B < B ∧
+    x * 2 ^ s = B ^ 0 * (extractNumb s (limbAt x 1) (limbAt x 0) * B + (limbAt x 0 <<< s) % B) + 0 := by
+  have hl0 : limbAt x 0 < B := by rw [limbAt_eq]; exact Nat.mod_lt _ B_pos
+  refine ⟨extractNumb_lt _ _ _ hs1 hs hl0, Nat.mod_lt _ B_pos, ?_⟩
+  rw [extractNumb_eq _ _ _ hs1 hs hl0, shl_mod_eq _ _ hs, Nat.mod_eq_of_lt ht]
+  have ex : x = limbAt x 1 * B + limbAt x 0 := by
+    rw [limbAt_eq, limbAt_eq, pow_one, pow_zero, Nat.div_one]
+    rw [Nat.mod_eq_of_lt (Nat.div_lt_of_lt_mul (by rw [← pow_two]; exact hx))]
+    exact (Nat.div_add_mod' x B).symm
+  have hB := B_split s hs
+  have e0 := Nat.div_add_mod (limbAt x 0) (2 ^ (64 - s))
+  generalize limbAt x 1 = l1 at *
+  generalize limbAt x 0 = l0 at *
+  generalize l0 / 2 ^ (64 - s) = k0 at *
+  generalize l0 % 2 ^ (64 - s) = m0 at *
+  generalize 2 ^ (64 - s) = d at *
+  generalize 2 ^ s = c at *
+  rw [ex, hB, ← e0]
+  ring
+
+/-- three limbs, shifted (n ≥ 3) -/
+theorem top_shift3 (x k s : Nat) (hs1 : 1 ≤ s) (hs : s ≤ 63) (hx : x < B ^ (k + 3))
+    (ht : limbAt x (k + 2) < 2 ^ (64 - s)) :
+    extractNumb s (limbAt x (k + 2)) (limbAt x (k + 1)) < B ∧
+    extractNumb s (limbAt x (k + 1)) (limbAt x k) < B ∧
+    ∃ rx, rx < B ^ (k + 1) ∧
+      x * 2 ^ s = B ^ (k + 1) * (extractNumb s (limbAt x (k + 2)) (limbAt x (k + 1)) * B
+                                  + extractNumb s (limbAt x (k + 1)) (limbAt x k)) + rx := by
+  have hl0 : limbAt x k < B := by rw [limbAt_eq]; exact Nat.mod_lt _ B_pos
+  have hl1 : limbAt x (k + 1) < B := by rw [limbAt_eq]; exact Nat.mod_lt _ B_pos
+  refine ⟨extractNumb_lt _ _ _ hs1 hs hl1, extractNumb_lt _ _ _ hs1 hs hl0, ?_⟩
+  rw [extractNumb_eq _ _ _ hs1 hs hl0, extractNumb_eq _ _ _ hs1 hs hl1]
+  have hB := B_split s hs
+  have ht3 : x / B ^ k < B * B * B := by
+    apply Nat.div_lt_of_lt_mul
+    have : B ^ (k + 3) = B ^ k * (B * B * B) := by ring
+    rw [← this]; exact hx
+  have ex : x = ((limbAt x (k + 2) * B + limbAt x (k + 1)) * B + limbAt x k) * B ^ k + x % B ^ k := by
+    rw [limbAt_eq, limbAt_eq, limbAt_eq]
+    have p2 : B ^ (k + 2) = B ^ k * B * B := by ring
+    rw [p2, pow_succ, ← Nat.div_div_eq_div_mul, ← Nat.div_div_eq_div_mul]
+    have : x / B ^ k / B / B < B := Nat.div_lt_of_lt_mul (Nat.div_lt_of_lt_mul (by
+      have : B * (B * B) = B * B * B := by ring
+      rw [this]; exact ht3))
+    rw [Nat.mod_eq_of_lt this, Nat.div_add_mod' (x / B ^ k / B) B, Nat.div_add_mod' (x / B ^ k) B,
+      Nat.div_add_mod' x (B ^ k)]
+  have hr : x % B ^ k < B ^ k := Nat.mod_lt _ (pow_pos B_pos _)
+  obtain ⟨rx, hrx, e⟩ := shift3 (2 ^ s) (2 ^ (64 - s)) (limbAt x (k + 2)) (limbAt x (k + 1)) (limbAt x k)
+    (B ^ k) (x % B ^ k) ht (by positivity) (by positivity) hr
+  rw [← hB] at hrx e
+  have p1 : B ^ (k + 1) = B * B ^ k := by ring
+  refine ⟨rx, by rw [p1]; exact hrx, ?_⟩
+  rw [p1, ← e, ← ex]
+
 end Mpir.Gcd
